@@ -177,6 +177,125 @@ elementwise_case!(elementwise2, 2, Mat2);
 elementwise_case!(elementwise3, 3, Mat3);
 elementwise_case!(elementwise4, 4, Mat4);
 
+
+/// IEEE special values: the products and the scalar / element-wise forms must act per element also on
+/// infinities, NaN and signed zeros (inf * 0 = NaN; no shortcut may skip an element).
+trait Fl: Dom + Copy + PartialEq + std::fmt::Debug {
+    fn pool() -> [Self; 12];
+    fn same_bits(a: Self, b: Self) -> bool;
+    fn is_nan_(self) -> bool;
+}
+macro_rules! fl_impl {
+    ($F:ident) => {
+        impl Fl for $F {
+            fn pool() -> [$F; 12] {
+                [0.0, -0.0, 1.0, -1.0, 2.0, -3.0, 0.5, $F::INFINITY, $F::NEG_INFINITY, $F::NAN, 4.0, -0.25]
+            }
+            fn same_bits(a: $F, b: $F) -> bool {
+                (a.is_nan() && b.is_nan()) || a.to_bits() == b.to_bits()
+            }
+            fn is_nan_(self) -> bool {
+                self.is_nan()
+            }
+        }
+    };
+}
+fl_impl!(f32);
+fl_impl!(f64);
+
+fn special_elem<S: Fl>(t: &mut Tape, hot: bool) -> S {
+    let p = S::pool();
+    if hot {
+        p[t.below(12)]
+    } else {
+        // benign: a small exact value
+        p[t.pick(&[2usize, 3, 4, 5, 6, 10, 11])]
+    }
+}
+
+macro_rules! specials_case {
+    ($fname:ident, $N:expr, $Mat:ident, $Vec:ident, $va:path, $av:path) => {
+        fn $fname<S: Fl>(t: &mut Tape, cx: &mut Cx) -> CaseResult {
+            const N: usize = $N;
+            let mut a = [[S::zero(); N]; N];
+            let mut b = [[S::zero(); N]; N];
+            let mut v = [S::zero(); N];
+            // 1..3 hot positions per operand, the rest benign
+            let hot_a: Vec<usize> = (0..1 + t.below(3)).map(|_| t.below(N * N)).collect();
+            let hot_b: Vec<usize> = (0..1 + t.below(3)).map(|_| t.below(N * N)).collect();
+            let hot_v = t.below(N);
+            for i in 0..N {
+                for j in 0..N {
+                    a[i][j] = special_elem::<S>(t, hot_a.contains(&(i * N + j)));
+                    b[i][j] = special_elem::<S>(t, hot_b.contains(&(i * N + j)));
+                }
+                v[i] = special_elem::<S>(t, i == hot_v);
+            }
+            let s: S = S::pool()[t.below(12)];
+            let nonfinite = |x: S| x.is_nan_() || x.f().is_infinite();
+            let any_special = a.iter().flatten().chain(b.iter().flatten()).any(|x| nonfinite(*x) || x.f() == 0.0) || nonfinite(s) || s.f() == 0.0;
+            cx.set_nontrivial(any_special);
+            if a.iter().flatten().any(|x| nonfinite(*x)) && s.f() == 0.0 {
+                cx.label("non-finite element times zero scalar");
+            }
+            if a.iter().flatten().any(|x| x.is_nan_()) || s.is_nan_() {
+                cx.label("NaN operand");
+            }
+            sample!(cx, "{} n={} A={:?} B={:?} v={:?} s={:?}", S::NAME, N, a, b, v, s);
+            let (ra, rb) = (rm::$Mat::<S>::from_arr(&a), rm::$Mat::<S>::from_arr(&b));
+            let (ca, cb) = (cm::$Mat::<S>::from_arr(&a), cm::$Mat::<S>::from_arr(&b));
+            // per-element forms: bit-exact (NaN matches NaN)
+            macro_rules! elem {
+                ($what:expr, $got_r:expr, $got_c:expr, |$x:ident, $y:ident| $e:expr) => {{
+                    let (gr, gc) = ($got_r.to_arr(), $got_c.to_arr());
+                    for i in 0..N {
+                        for j in 0..N {
+                            let ($x, $y) = (a[i][j], b[i][j]);
+                            let w: S = $e;
+                            check!(cx, S::same_bits(gr[i][j], w), "row-major {}: element ({},{}) got {:?}, want {:?} (a={:?} b={:?} s={:?})", $what, i, j, gr[i][j], w, a[i][j], b[i][j], s);
+                            check!(cx, S::same_bits(gc[i][j], w), "col-major {}: element ({},{}) got {:?}, want {:?} (a={:?} b={:?} s={:?})", $what, i, j, gc[i][j], w, a[i][j], b[i][j], s);
+                        }
+                    }
+                }};
+            }
+            elem!("A*s", ra * s, ca * s, |x, _y| x * s);
+            elem!("A/s", ra / s, ca / s, |x, _y| x / s);
+            elem!("A+s", ra + s, ca + s, |x, _y| x + s);
+            elem!("A-s", ra - s, ca - s, |x, _y| x - s);
+            elem!("A*=s", { let mut m = ra; m *= s; m }, { let mut m = ca; m *= s; m }, |x, _y| x * s);
+            elem!("A/=s", { let mut m = ra; m /= s; m }, { let mut m = ca; m /= s; m }, |x, _y| x / s);
+            elem!("A+B", ra + rb, ca + cb, |x, y| x + y);
+            elem!("A-B", ra - rb, ca - cb, |x, y| x - y);
+            elem!("A/B", ra / rb, ca / cb, |x, y| x / y);
+            elem!("mul_memberwise", ra.mul_memberwise(rb), ca.mul_memberwise(cb), |x, y| x * y);
+            elem!("-A", -ra, -ca, |x, _y| -x);
+            // products: sum of products; the association order is free, which cannot change NaN-ness, infinities or
+            // (for these exactly representable operands) finite values; the sign of a zero sum is not asserted
+            let close = |g: S, w: S| (g.is_nan_() && w.is_nan_()) || g == w;
+            let ab = rf::matmul(&a, &b);
+            let av = rf::matvec(&a, &v);
+            let va_ = rf::vecmat(&v, &a);
+            let vv: $Vec<S> = $va(&v);
+            for (what, got) in [("row*row", (ra * rb).to_arr()), ("col*col", (ca * cb).to_arr()), ("row*col", (ra * cb).to_arr()), ("col*row", (ca * rb).to_arr()), ("row A*=B", { let mut m = ra; m *= rb; m.to_arr() }), ("col A*=B", { let mut m = ca; m *= cb; m.to_arr() })] {
+                for i in 0..N {
+                    for j in 0..N {
+                        check!(cx, close(got[i][j], ab[i][j]), "{} with special values: element ({},{}) got {:?}, want {:?}", what, i, j, got[i][j], ab[i][j]);
+                    }
+                }
+            }
+            for (what, got, want) in [("row M*v", $av(&(ra * vv)), av), ("col M*v", $av(&(ca * vv)), av), ("v*row M", $av(&(vv * ra)), va_), ("v*col M", $av(&(vv * ca)), va_)] {
+                for i in 0..N {
+                    check!(cx, close(got[i], want[i]), "{} with special values: element {} got {:?}, want {:?}", what, i, got[i], want[i]);
+                }
+            }
+            Ok(())
+        }
+    };
+}
+specials_case!(specials2, 2, Mat2, Vec2, vk::v2, vk::a2);
+specials_case!(specials3, 3, Mat3, Vec3, vk::v3, vk::a3);
+specials_case!(specials4, 4, Mat4, Vec4, vk::v4, vk::a4);
+
 /// Vec4-as-2x2 helpers against the 2x2 matrix expressions.
 fn mat2_helpers<S: Dom>(t: &mut Tape, cx: &mut Cx) -> CaseResult {
     let a: [[S; 2]; 2] = vk::gen_mat(t, 12);
@@ -257,6 +376,13 @@ pub fn property() -> Property {
     tape!("products2-f32", about, 96, 10_000, 200_000, products2::<f32>);
     tape!("products3-f32", about, 160, 10_000, 200_000, products3::<f32>);
     tape!("products4-f32", about, 256, 10_000, 200_000, products4::<f32>);
+    let sp = "IEEE special values (+-0, +-inf, NaN among small exact values; 1..3 hot positions per operand, scalar from the pool): scalar and element-wise forms (A*s, A/s, A+-s, compound, A+-B, A/B, mul_memberwise, -A) are bit-exact per element in both layouts (inf*0 = NaN: no shortcut may skip an element); all matrix/vector products equal the sum of products (NaN, infinities and finite values; the sign of a zero sum is free)";
+    tape!("specials2-f64", sp, 48, 6_000, 200_000, specials2::<f64>);
+    tape!("specials3-f64", sp, 64, 6_000, 200_000, specials3::<f64>);
+    tape!("specials4-f64", sp, 96, 6_000, 200_000, specials4::<f64>);
+    tape!("specials2-f32", sp, 48, 6_000, 200_000, specials2::<f32>);
+    tape!("specials3-f32", sp, 64, 6_000, 200_000, specials3::<f32>);
+    tape!("specials4-f32", sp, 96, 6_000, 200_000, specials4::<f32>);
     tape!("products-i64", "integer instantiation of all products (2 layouts, mixed), element-wise / and %", 64, 20_000, 400_000, products_int);
     let ew = "element-wise + - / % with matrix and scalar, negation, all compound assignments, on opaque terms: (i,j) == op(a[i][j], b[i][j])";
     tape!("elementwise2-sym", ew, 4, 2_000, 20_000, elementwise2);
